@@ -562,7 +562,12 @@ func (prop) Execute(scAny any, phase string, log *core.Log) core.Result {
 	var ms0, ms1 runtime.MemStats
 	in := append([]byte(nil), data...)
 	runtime.ReadMemStats(&ms0)
-	p := core.Guard(func() { g, derr = lib.Unmarshal(in) })
+	p := core.Guard(func() {
+		g, derr = lib.Unmarshal(in)
+		if derr != nil {
+			_ = derr.Error() // the error a caller gets can be rendered
+		}
+	})
 	runtime.ReadMemStats(&ms1)
 	if p != "" {
 		res.Fail("panic", "panic:unmarshal:"+core.PanicSite(p), "Unmarshal panicked on %s (shadow %s %s): %s", short(data), v.Class, v.Why, p)
